@@ -462,7 +462,18 @@ func (g *G) attr(a string, c *svcCtx) *Y {
 		return Map().Set("net.core.somaxconn", Int(1024)).Set("net.ipv4.ip_forward", Str("1"))
 	case "extra_hosts":
 		if g.chance("eh-list", 1, 2) {
-			return StrSeq("somehost:162.242.195.82", "otherhost=50.31.209.229", "v6host:::1")
+			// a drawn non-empty subset: two files then overlap partially, which is where merging has to think
+			pool := []string{"somehost:162.242.195.82", "otherhost=50.31.209.229", "v6host:::1", "fourth=10.0.0.4"}
+			y := Seq()
+			for _, e := range pool {
+				if g.chance("eh-pick", 1, 2) {
+					y.Add(Str(e))
+				}
+			}
+			if len(y.Vals) == 0 {
+				y.Add(Str(pool[g.n("eh-one", len(pool))]))
+			}
+			return y
 		}
 		return Map().Set("somehost", Str("162.242.195.82")).Set("multi", StrSeq("10.0.0.1", "10.0.0.2"))
 	case "dns", "dns_search", "tmpfs":
